@@ -387,7 +387,8 @@ pub fn run(ctx: &mut Ctx) {
     let quick = ctx.quick();
     let msets: Vec<Vec<String>> = vec![vec!["GET".into()], vec!["POST".into()], vec!["GET".into(), "POST".into()]];
     // (depth bound, set size) pairs
-    let plans: Vec<(usize, usize)> = if quick { vec![(2, 1), (2, 2)] } else { vec![(3, 1), (3, 2), (2, 3)] };
+    // quick also takes every single route of depth 3 (routes with three param segments, handlers taking the first two)
+    let plans: Vec<(usize, usize)> = if quick { vec![(2, 1), (2, 2), (3, 1)] } else { vec![(3, 1), (3, 2), (2, 3)] };
     let mut done_sets: std::collections::HashSet<Vec<(Vec<String>, Vec<String>)>> = Default::default();
     for (depth, size) in plans {
         let routes = all_routes(depth);
@@ -425,7 +426,7 @@ pub fn run(ctx: &mut Ctx) {
         }
     }
     ctx.extra.insert("rule".into(), json!("case = (route set + method sets, declaration shape, registration order, request); configurations are built by the real registration/finalization code, requests go through the real Request::read / Router::handle / Response::send; non-trivial = the route set has a param route or more than one route; collision = a request segment is a strict byte extension or a strict prefix of a static pattern at the same position (the byte-prefix shortcut of the radix matcher)"));
-    ctx.extra.insert("bounds".into(), json!({"segments": SEGS, "plans(depth,set size)": if quick { json!([[2,1],[2,2]]) } else { json!([[3,1],[3,2],[2,3]]) }, "method_sets": ["GET","POST","GET+POST", "all 31 subsets on single-route apps"], "thinning": "pairs of deep routes: method-set assignments equal or {one method, both methods}; two depth-3 routes only when their first segments can meet", "shapes": ["flat","split","mount1","mount2","nested","inline","mount-one(i)"], "orders": if quick { "all permutations up to 3 items, 3 orders beyond" } else { "all permutations up to 4 items" },
+    ctx.extra.insert("bounds".into(), json!({"segments": SEGS, "plans(depth,set size)": if quick { json!([[2,1],[2,2],[3,1]]) } else { json!([[3,1],[3,2],[2,3]]) }, "method_sets": ["GET","POST","GET+POST", "all 31 subsets on single-route apps"], "thinning": "pairs of deep routes: method-set assignments equal or {one method, both methods}; two depth-3 routes only when their first segments can meet", "shapes": ["flat","split","mount1","mount2","nested","inline","mount-one(i)"], "orders": if quick { "all permutations up to 3 items, 3 orders beyond" } else { "all permutations up to 4 items" },
         "requests": "route sets of depth <=2: all paths of depth <= max+1 over the per-set segment alphabet x trailing-slash variants x 7 methods; sets containing a depth-3 route: every route instance, all its single-segment mutations, one segment dropped / appended x 5 methods"}));
     ctx.traces_validated = ctx.transitions;
 }
